@@ -35,3 +35,26 @@ Proof. unfold valid; simpl; split; repeat constructor. Qed.
 From Verif.C14 Require Import ProofsBd.
 Example ex_joins_wellformed : Forall (bjoin_ok ex_shapes) ex_joins.
 Proof. repeat constructor; simpl; try lia; try discriminate. Qed.
+
+(* assemble_system_*: two patches with 2 dofs each, dof 1 of patch 0 glued to dof 0 of patch 1:
+   3 global dofs, the shared diagonal entry is the sum of the two patch entries, and the bilinear
+   form identity has non-trivial sides *)
+From Coq Require Import QArith Qcanon.
+From Verif.C14 Require Import ProofsAsm.
+Close Scope Q_scope. Close Scope Qc_scope.
+Definition ex2_ps : list (dof * dof) := [((0, 1), (1, 0))].
+Definition ex2_Ns := [2; 2].
+Definition ex2_As (p i j : nat) : Qc := Q2Qc (Z.of_nat (10 * p + 3 * i + j + 1) # 1)%Q.
+Example ex2_numdofs : numdofs (fold_left join1 ex2_ps init) ex2_Ns = 3.
+Proof. vm_compute. reflexivity. Qed.
+Example ex2_shared_entry :
+  let st := fold_left join1 ex2_ps init in
+  let g := glob st ex2_Ns (0, 1) in
+  g = glob st ex2_Ns (1, 0) /\
+  this (asm_mat st ex2_Ns ex2_As g g) = (this (ex2_As 0 1 1) + this (ex2_As 1 0 0))%Q.
+Proof. vm_compute. split; reflexivity. Qed.
+Example ex2_form_nontrivial :
+  let st := fold_left join1 ex2_ps init in
+  let u := fun g => Q2Qc (Z.of_nat (g + 1) # 1)%Q in
+  this (sumn (fun g => sumn (fun h => u g * asm_mat st ex2_Ns ex2_As g h * u h)%Qc 3) 3) <> 0%Q.
+Proof. vm_compute. discriminate. Qed.
